@@ -258,13 +258,13 @@ def cases(tier):
 
 
 def run_shard(tier, k, n, acc):
-    from ..monitors import mon_c02, mon_c03
+    from ..monitors import mon_c02, mon_c03, mon_c09
     from ..sched import run_case
     for c in shard_iter(cases(tier), k, n, acc):
         if c["kind"] == "flavour":
             run_flavour(acc, c)
         elif c["kind"] == "async_sched":
-            run_case(acc, c, [mon_c02, mon_c03], lambda view: tuple(e[1] for e in view.trace if e[0] in ("enter", "exit")))
+            run_case(acc, c, [mon_c02, mon_c03, mon_c09], lambda view: tuple(e[1] for e in view.trace if e[0] in ("enter", "exit")))
         else:
             run_gather(acc, c)
 
@@ -274,9 +274,9 @@ def replay(v):
     a = Acc(ID, 0, 1, 600)
     c = v["case"]
     if c.get("kind") == "async_sched":
-        from ..monitors import mon_c02, mon_c03
+        from ..monitors import mon_c02, mon_c03, mon_c09
         from ..sched import replay_case
-        res, viols = replay_case(c, [mon_c02, mon_c03], v["prefix"])
+        res, viols = replay_case(c, [mon_c02, mon_c03, mon_c09], v["prefix"])
         return viols, res.trace
     if c.get("kind") == "gather":
         run_gather(a, c, only_prefix=v["prefix"])
